@@ -203,6 +203,16 @@ func (m *Model) IsTupleset(typ, rel string) bool {
 // only; the stored context only uses declared parameters with convertible values.
 func (m *Model) ValidForRead(t Tuple) bool { return m.WhyInvalid(t, false) == "" }
 
+// BadStoredContext: the tuple's only fault is a stored context value that does not fit its declared
+// parameter (or a parameter the condition does not declare). Such a tuple cannot be written through
+// the API; when one is in the store, the read-time validation of the default Check ignores it while
+// the ListObjects engines evaluate its condition and fail. Both are conservative: the reference
+// treats the tuple as absent and admits an error.
+func (m *Model) BadStoredContext(t Tuple) bool {
+	w := m.WhyInvalid(t, false)
+	return w == "undeclared context parameter" || w == "mistyped context parameter"
+}
+
 // ValidForWrite additionally requires well-formedness of all parts and existing user type/relation.
 func (m *Model) ValidForWrite(t Tuple) bool { return m.WhyInvalid(t, true) == "" }
 
